@@ -14,4 +14,5 @@ var Checks = map[string]func(*core.Env){
 	"C09": C09,
 	"C11": C11,
 	"C17": C17,
+	"C13": C13,
 }
